@@ -45,6 +45,12 @@ def gen_case(rng, tier, idx):
         return {"kind": "bare", "aw": rng.choice([12, 16]), "dw": rng.choice([8, 32]), "al": 0,
                 "nsubs": rng.choice([65, 66, 97, 99, 100, 127, 129, 131, 150]), "query_between_adds": False,
                 "elaborate_between_adds": False, "cycles": 600 if tier == "quick" else 1500}
+    if idx % 60 in (13, 43):
+        # a bank of identical peripherals laid out back to back from address 0, in a decoder with room to spare above it
+        n, k = rng.choice([8, 8, 9, 12, 16, 16, 20, 32]), rng.randint(1, 4)
+        return {"kind": "bare", "aw": k + (n - 1).bit_length() + rng.randint(1, 3), "dw": rng.choice([8, 16, 32]), "al": 0,
+                "nsubs": n, "uniform": k, "query_between_adds": False, "elaborate_between_adds": rng.random() < 0.3,
+                "cycles": 300 if tier == "quick" else 800}
     return {"kind": "bare", "aw": aw, "dw": rng.choice([1, 4, 8, 8, 16, 32, 64, 65]),
             "al": rng.choice([0, 0, 0, 1, 2, 3]) if aw > 3 else 0,
             "nsubs": rng.choice([0, 1, 2, 3, 4, 5, 6, 17, 20, 33, 40]) if aw >= 8 else rng.choice([0, 1, 2, 3, 4, 5, 6]),
@@ -72,19 +78,25 @@ def run_bare(case, rng):
         k = rng.randint(1, max(1, (aw - 5) if case["nsubs"] > 8 else (aw - 1)))
         if case["nsubs"] > 60:
             k = rng.randint(1, aw - 9)
-        if rng.random() < 0.08:
+        if case.get("uniform"):
+            k = case["uniform"]
+        elif rng.random() < 0.08:
             k = aw + rng.randint(0, 1)        # does not fit (or fills the decoder): a rejected add is part of the history
         sub = csr.Interface(addr_width=k, data_width=dw, path=(f"sub{i}",))
         sub.memory_map = new_map(addr_width=k, data_width=dw)
-        if rng.random() < 0.3:
+        if rng.random() < 0.3 and not case.get("uniform"):
             try:
                 dec.align_to(rng.randint(0, aw))
             except ValueError:
                 pass
         kw = {}
-        if rng.random() < 0.35:
+        if rng.random() < 0.35 and not case.get("uniform"):
             kw["addr"] = rng.randrange(1 << aw) // (1 << k) * (1 << k)
         name = None if rng.random() < 0.5 else f"w{i}"
+        if name is not None and rng.random() < 0.4:
+            # sibling names that are distinct (and legal together) but look alike once written out
+            j_ = rng.randrange(3)
+            name = rng.choice([("u", j_), f"u__{j_}", ("u", str(j_)), f"u_{j_}", ("u_", j_)])
         try:
             granted = dec.add(sub, name=name, **kw)
         except ValueError:
